@@ -1,11 +1,12 @@
 #!/bin/bash
 # usage: tools/try_benign.sh <dir with patch.diff> <PID>   -- the check must stay silent (exit 0) on a property-preserving change
+VERIF_DIR="$(dirname "$(readlink -f "$0")")/.."; VERIF_DIR="$(readlink -f "$VERIF_DIR")"
 D=$(readlink -f $1); PID=$2
 WT=/tmp/wt-benign-$$
 git -C /repo worktree add -q $WT HEAD || exit 9
 trap 'git -C /repo worktree remove --force '$WT' >/dev/null 2>&1' EXIT
 git -C $WT apply $D/patch.diff || { echo "PATCH DOES NOT APPLY"; exit 8; }
-cd /verif
+cd "$VERIF_DIR"
 DSIM_REPO=$WT timeout 900 ./check $PID --tier quick --no-evidence > /tmp/w/check_benign.out 2>&1; rc=$?
 echo "check exit: $rc   ($(basename $D))"
 grep -E "^VIOLATION|signature=|HARNESS|Error" /tmp/w/check_benign.out | cut -c1-400 | head -8
